@@ -350,6 +350,8 @@ var shapes = []func(name string) tok{
 var chains = []tok{
 	chain(".p", ".p()"), chain("@q", "@q()"), chain("$r", "$r()"), chain("&.p", "&.p()"), chain("~@q", "~@q()"), chain("=$r", "=$r()"),
 	chain(".p(1)", ".p(1)"), chain("@(2)q", "@(2)q()"), chain("$(0)+", "$(0)+()"), chain(".{|x| x}", ".{|x| x}"), chain("@^f", "@^f()"),
+	// property names that end with a mark (predicates, bang methods)
+	chain(".ok?", ".ok?()"), chain(".go!", ".go!()"), chain(".kindOf?(1)", ".kindOf?(1)"), chain("@even?", "@even?()"),
 	// chains continued on the next line (`|` prefix) are separate lexer tokens with their own precedence entries
 	chain("\n|.p", ".p()"), chain("\n|@q(1)", "@q(1)"), chain("\n  # note\n  |&.p", "&.p()"), chain("\n|~$r", "~$r()"),
 }
